@@ -10,7 +10,7 @@
 (*    granularity the harness can enforce on real threads is a state whose hist is the     *)
 (*    schedule; harness/c20.py replays each of them.                                       *)
 (* Threads are interchangeable, so they begin in index order (symmetry).                  *)
-EXTENDS GlomCalls
+EXTENDS GlomCalls, Json
 
 CONSTANTS PoolSize, PoolFrom
 
@@ -22,27 +22,34 @@ P(text, segs) == SPath(text, segs)
 Pa == P("a", <<"a">>)   Pab == P("a.b", <<"a", "b">>)   Pax == P("a.x", <<"a", "x">>)   Pstar == P("*", <<"*">>)
 
 FullPool == <<
-  \* accumulators + GROUP mode, two yields; the pair (1, 1) shares one spec object between threads
+  \* 1: accumulators + GROUP mode, two yields; the pair (1, 1) shares one spec object between threads
   Call(L12, <<>>, 1, SAcc("group", "inc")),
-  \* bindings (caller scope, S-binding chained through a tuple) and FILL mode around yields
+  \* 2: bindings (caller scope, S-binding chained through a tuple) and FILL mode around yields
   Call(T1, << <<"k", VInt(7)>> >>, 2,
        STuple(<<SBind("x", Pab), SProbe("id"), SFill(STuple(<<SProbe("id"), SRead("x"), SRead("k")>>))>>)),
-  \* path cache + wildcard on both sides of a yield
+  \* 3: path cache + wildcard on both sides of a yield
   Call(T1, <<>>, 3, STuple(<<Pa, SProbe("id"), Pstar>>)),
-  \* re-entrant call whose failure is caught by the outer Coalesce
-  Call(T1, <<>>, 4, SCoal(<<SNest(Call(T1, <<>>, 41, STuple(<<SProbe("id"), Pax>>))), Pab>>, NoDefault)),
-  \* registry-sensitive access after a yield
-  Call(OA, <<>>, 5, STuple(<<SProbe("id"), Pa>>)),
-  \* a user callable that raises inside a Fold: error outcome and trace
+  \* 4: registry-sensitive access after a yield
+  Call(OA, <<>>, 4, STuple(<<SProbe("id"), Pa>>)),
+  \* 5: re-entrant call whose failure is caught by the outer Coalesce
+  Call(T1, <<>>, 5, SCoal(<<SNest(Call(T1, <<>>, 51, STuple(<<SProbe("id"), Pax>>))), Pab>>, NoDefault)),
+  \* 6: a user callable that raises inside a Fold: error outcome and trace
   Call(L12, <<>>, 6, SAcc("fold", "boom")),
-  \* four yields
+  \* 7: four yields
   Call(L12, <<>>, 7, SEach("list", STuple(<<SProbe("inc"), SProbe("inc")>>))),
-  \* nesting depth 3, the innermost call fails, nothing catches it
+  \* 8: nesting depth 3, the innermost call fails, nothing catches it
   Call(T1, <<>>, 8, SNest(Call(T1, <<>>, 81, STuple(<<Pa,
           SNest(Call(T1, <<>>, 82, SNest(Call(L5, <<>>, 83, SAcc("group", "boom")))))>>)))),
-  \* an unbound name read after a yield (S-rooted access error), default container
+  \* 9: an unbound name read after a yield (S-rooted access error), default container, Iter
   Call(T1, <<>>, 9, SDict(<< <<"u", SCoal(<<STuple(<<SProbe("id"), SRead("x")>>)>>, Default(VList(<<>>)))>>,
-                            <<"w", SEach("iter", SProbe("id"))>> >>))
+                            <<"w", SEach("iter", SProbe("id"))>> >>)),
+  \* 10, 11: bare string paths - the check / create / store / fetch steps of Path.from_text are the
+  \* only stop points (replayed on real threads with a str subclass that yields in __hash__ / split)
+  Call(T1, <<>>, 10, Pstar),
+  Call(T1, <<>>, 11, Pa),
+  \* 12: iteration of a type without an 'iterate' handler (nothing is memoized), caught by Coalesce;
+  \* iterable once Aiter is registered
+  Call(OA, <<>>, 12, SCoal(<<SEach("list", SProbe("id"))>>, Default(VInt(0))))
 >>
 C20Pool == SubSeq(FullPool, PoolFrom, PoolFrom + PoolSize - 1)
 
@@ -50,8 +57,13 @@ MCNext ==
   \/ \E p \in Procs : \E c \in 1..Len(Pool) : (IF p = 1 THEN TRUE ELSE procs[p - 1].nc > 0) /\ Begin(p, c)
   \/ \E p \in Procs : \/ YieldReturn(p) \/ CacheRead(p) \/ CacheCreate(p) \/ CacheWrite(p)
                       \/ MemoRead(p) \/ MemoCompute(p) \/ MemoWrite(p)
-  \/ ToggleStar
-  \/ \E r \in RegNames : Register(r)
+  \* in the replay configurations the configuration is chosen before the threads start
+  \/ (RecHist => \A p \in Procs : procs[p].nc = 0) /\ ToggleStar
+  \/ \E r \in RegNames : (RecHist => \A p \in Procs : procs[p].nc = 0) /\ Register(r)
 MCSpec == Init /\ [][MCNext]_vars
 AllDone == \A p \in Procs : procs[p].st = "done"
+\* replay configurations: every complete schedule is printed once it is complete
+PrintSchedule == AllDone => PrintT(ToJson([hist |-> hist]))
+\* the harness reads the pool from TLC's output (printed once at start-up)
+ASSUME PrintT(ToJson([pool |-> C20Pool]))
 ====================================================================================
